@@ -587,3 +587,52 @@ Example C09_ex_translated_quota_loop :
   QuotaLoop.gen_count_offspring [0x1.8p+0; 0x1.cp-1; 0x1.4p+1]%float 0x1p-2%float = (5, 0x1p-3%float) /\
   fst (QuotaLoop.gen_count_offspring [PrimFloat.nan] 0%float) = - 2 ^ 63.
 Proof. vm_compute. repeat split. Qed.
+
+(* ============================================================================================ *)
+(* ==== added by agent "actbodies" (C09/C02: the quota preparation tied to the source) ========== *)
+(* ============================================================================================ *)
+(* gen/QuotaPrep.v is regenerated on every run from the BODY of Population.purgeZeroOffspringSpecies *)
+(* in neat/genetics/population.go: [gen_purge_zero_offspring], over the view of a population of     *)
+(* model/QuotaView.v -- Organism structs (Fitness, ExpectedOffspring) and Species structs           *)
+(* (Organisms, ExpectedOffspring) in pointer-keyed heaps, Population.Organisms / Species as pointer *)
+(* lists; a field read or write through a pointer without a struct is a panic value; the calls of   *)
+(* Species.countOffspring are the translated loop of gen/QuotaLoop.v.                                *)
+(* [QuotaPrepAgree.abs p] is that view of a model population p: an organism pointer is its heap key *)
+(* (struct: o_fit, o_exp), a species pointer its id (struct: sp_orgs, sp_exp).                       *)
+(* For every population satisfying the partition invariant Part (the invariant between epochs of    *)
+(* C02) the model's purge_zero_offspring -- the subject of the quota theorems above -- returns a     *)
+(* population p', and the translated code run on the view of p returns, without panic, the view of   *)
+(* p': the same Organism structs (every ExpectedOffspring written), the same Population.Organisms    *)
+(* and Population.Species (the species kept, in order), the model's species behind every pointer of  *)
+(* Population.Species and behind the pointer of every species the model detaches.                    *)
+(* ============================================================================================ *)
+From NeatModel Require PopBase GoSlice GoHeap QuotaView QuotaPrep QuotaPrepAgree.
+
+Theorem C09_quota_preparation_is_the_translated_source :
+  forall (p : population) (generation : Z),
+    PopBase.Part p ->
+    exists p' : population,
+      purge_zero_offspring p = Ok p' /\
+      exists r : QuotaView.qpop,
+        QuotaPrep.gen_purge_zero_offspring (QuotaPrepAgree.abs p) generation = Ok r /\
+        QuotaView.qp_organisms r = QuotaView.qp_organisms (QuotaPrepAgree.abs p') /\
+        QuotaView.qp_Organisms r = QuotaView.qp_Organisms (QuotaPrepAgree.abs p') /\
+        QuotaView.qp_Species r = QuotaView.qp_Species (QuotaPrepAgree.abs p') /\
+        (forall s, In s (p_species p' ++ p_detached p') ->
+                   GoHeap.gh_get (QuotaView.qp_species r) (sp_id s) = Ok (QuotaPrepAgree.sview s)).
+Proof. exact QuotaPrepAgree.gen_purge_zero_offspring_agrees. Qed.
+Print Assumptions C09_quota_preparation_is_the_translated_source.
+
+(* the translated function on the view of the example population of C09_ex_fixup: the same quotas 2, 1, 4
+   (the +1 fix-up fires); a species that lists a pointer without an Organism struct makes it panic *)
+Example C09_ex_translated_preparation :
+  match QuotaPrep.gen_purge_zero_offspring (QuotaPrepAgree.abs ex_pop3) 0 with
+  | Ok r => map (fun k => match GoHeap.gh_get (QuotaView.qp_species r) k with
+                          | Ok s => (k, QuotaView.qs_ExpectedOffspring s) | _ => (k, -1) end) (QuotaView.qp_Species r)
+  | _ => []
+  end = [(1, 2); (2, 1); (3, 4)] /\
+  QuotaPrep.gen_purge_zero_offspring
+    {| QuotaView.qp_organisms := [(7, {| QuotaView.qo_Fitness := 1%float; QuotaView.qo_ExpectedOffspring := 0%float |})];
+       QuotaView.qp_species := [(1, {| QuotaView.qs_Organisms := [7; 8]; QuotaView.qs_ExpectedOffspring := 0 |})];
+       QuotaView.qp_Organisms := [7]; QuotaView.qp_Species := [1] |} 0 = GoPanic GoSlice.panic_nil_deref.
+Proof. vm_compute. split; reflexivity. Qed.
